@@ -200,6 +200,10 @@ Section Proto.
   (* _create_stream *)
   Definition create_stream (method target : bytes) (hs : list header) (version : bytes) : MP unit :=
     p <- get ;;
+    (* ghost: self.stream is overwritten while it still holds a stream (never observed, see Serial_proofs) *)
+    (if p_stream_live p then note "stream-replaced" else ret tt) ;;
+    (* ghost: a further request is taken on although the connection had reached keep_alive_max_requests *)
+    (if (c_max_requests cfg <=? p_requests p)%Z && (1 <=? p_requests p)%Z then note "request-over-limit" else ret tt) ;;
     (if wants_websocket method hs then
        modify (set_slot (SlotWs (new_wstream (p_stream_id p) (ws_token hs) ws_ext ws_sends)) true) ;;
        modify (set_wsmode true) ;;
@@ -242,8 +246,10 @@ Section Proto.
     | RH e :: rest =>
         modify (set_events rest) ;;
         emit (OLib (VS "next_event" :: v_of_h11ev e)) ;;
-        (if p_ws_mode p then ret tt
-         else (if recv_possible (p_lib p) e then ret tt else emit (ONote "h11-contract-violated")) ;;
+        (if p_ws_mode p
+         then (* H11WSConnection.next_event yields Data or NEED_DATA only *)
+              match e with HNeedData => ret tt | _ => emit (ONote "h11-contract-violated") end
+         else (if event_allowed (p_lib p) e then ret tt else emit (ONote "h11-contract-violated")) ;;
               modify (fun p => set_lib (recv (p_lib p) e) p) ;;
               p <- get ;; emit (OLib [VS "states"; v_of_h1state (our_state (p_lib p)); v_of_h1state (their_state (p_lib p))])) ;;
         match e with
